@@ -125,6 +125,18 @@ def gen_stun(rng, fault=None, magic=None):
 
 
 def dns_name(rng):
+    if rng.chance(1, 12):
+        # boundary names: exactly 255 / 254 octets on the wire (RFC 1035 limit), many one-byte labels
+        k = rng.below(4)
+        if k == 0:
+            lens = [63, 63, 63, 61]
+        elif k == 1:
+            lens = [63, 63, 63, 60]
+        elif k == 2:
+            lens = [1] * 127
+        else:
+            lens = [63, 63, 63, 61][:1 + rng.below(4)]
+        return b''.join(bytes([n]) + bytes(0x61 + rng.below(26) for _ in range(n)) for n in lens) + b'\0'
     labels = []
     for _ in range(rng.below(4)):
         n = rng.choice([1, 3, 7, 63, rng.below(20) + 1])
